@@ -456,6 +456,8 @@ func c10SanitizeComposedScenario(x *mc.X) *mc.Outcome {
 	for i, p := range paths {
 		pool = append(pool, (&z.ZogIssue{}).SetCode(fmt.Sprintf("c%d", i)).SetPath(p).SetMessage(fmt.Sprintf("message %d", i)))
 	}
+	// an issue whose message is blank (a formatter that has no text for its code) is still an issue: one entry, an empty text
+	pool = append(pool, (&z.ZogIssue{}).SetCode("c4").SetPath("name"))
 	m := z.ZogIssueMap{}
 	var desc []string
 	for _, k := range []string{"$root", "name", "a.b"} {
